@@ -76,6 +76,9 @@ func monitor(prop string, h *History, res *common.Result) {
 	case "C06":
 		sessionEndSeqMonitor(prop, h, res)
 	}
+	if (prop == "C10" || prop == "C09") && h.EmptyStart != "-" && h.EmptyStart != "" {
+		viol(res, prop, "seq:restart:empty-file-start-failed", "start-up fails on a zero-length state file - the image a kill between Truncate(0) and Write of a state-file rewrite leaves behind, i.e. a file the server itself produced: "+h.EmptyStart, h, len(h.Steps)-1, nil)
+	}
 	noclearDisc := false
 	for i := range h.Steps {
 		s := &h.Steps[i]
@@ -382,6 +385,7 @@ func waitMonitor(prop string, h *History, res *common.Result) {
 	const sec = int64(1000000000)
 	type pend struct {
 		name  string
+		sid   string
 		start int64
 		wt    *int32
 		order int
@@ -406,7 +410,7 @@ func waitMonitor(prop string, h *History, res *common.Result) {
 			req := nreq
 			nreq++
 			if s.Resp.Pending {
-				pending[req] = &pend{name: s.Op.Name, start: s.Now, wt: s.Op.Wt, order: req}
+				pending[req] = &pend{name: s.Op.Name, sid: s.Op.Sid, start: s.Now, wt: s.Op.Wt, order: req}
 			}
 		}
 		granted := []int{}
@@ -419,6 +423,12 @@ func waitMonitor(prop string, h *History, res *common.Result) {
 				continue
 			}
 			errName := f[len(f)-1]
+			if errName == "LockWaitTimeout" && (s.Op.Kind == "restart" || s.Op.Kind == "restartwith" || s.Op.Kind == "cancel" || s.Op.Kind == "disconnect") {
+				// no virtual time passes inside these operations: a wait timeout cannot fire in them unless the
+				// harness had to let the clock run because the call ignored its cancellation
+				viol(res, prop, "seq:wait:cancel-ignored", fmt.Sprintf("blocked request %d did not return when its caller went away during %q; it ended by its own wait timeout instead", req, s.Op.Line()), h, i, nil)
+				return
+			}
 			if errName == "LockWaitTimeout" {
 				if p.wt == nil || *p.wt <= 0 {
 					viol(res, prop, "seq:wait:timeout-without-timeout", fmt.Sprintf("blocked request %d had no wait timeout but returned LockWaitTimeout", req), h, i, nil)
@@ -444,6 +454,22 @@ func waitMonitor(prop string, h *History, res *common.Result) {
 		// FIFO: a granted waiter must be older than every waiter of the same lock still blocked
 		for _, g := range granted {
 			_ = g
+		}
+		// prompt cancel: a blocked call whose caller went away (cancel of the request, end of its session)
+		// returns within that operation
+		if s.Op.Kind == "cancel" {
+			if p, still := pending[s.Op.Req]; still {
+				viol(res, prop, "seq:wait:cancel-ignored", fmt.Sprintf("blocked request %d on %q was cancelled by its caller but is still waiting afterwards (it must return promptly and must not be granted the lock later)", s.Op.Req, p.name), h, i, nil)
+				return
+			}
+		}
+		if s.Op.Kind == "disconnect" {
+			for req, p := range pending {
+				if p.sid == s.Op.Sid {
+					viol(res, prop, "seq:wait:cancel-ignored", fmt.Sprintf("blocked request %d on %q is still waiting after its session %s ended", req, p.name, s.Op.Sid), h, i, nil)
+					return
+				}
+			}
 		}
 		for _, e := range s.Resp.Events {
 			f := strings.Split(e, ":")
